@@ -344,6 +344,12 @@ Definition tie_sync (c : case_t) : bool :=
 
 
 # --------------------------------------------------------------------------- the shared driver engine
+def bud(ctx, q, t):
+    """Case budget; the runner's x10 widening is capped at 3x the thorough budget (a widened thorough run must
+    still finish in reasonable time)."""
+    return min(ctx.budget(q, t), 3 * max(q, t))
+
+
 def perm_oracles(nj, vis):
     """Every completion order of a workflow with nj jobs: c_t in range(nj - t) (c mod |pending| covers every
     choice because at step t at most nj - t futures are pending)."""
